@@ -19,6 +19,11 @@ def run():
     cases += sims
     for i in range(6000 if c.thorough else 800):
         cases.append(random_history(c.rng, maxlen=8, with_rejects=False))
+    # whole-API programs: reshaping operations (trend, smooth, noise, interpolate, recreate, match, writes through get()) mixed
+    # with the domain operations - "reshaping operations never alter the reference" needs them on unreshaped series too
+    from weaverfam import random_program
+    for i in range(3000 if c.thorough else 500):
+        cases.append(random_program(c.rng, maxops=6))
     if c.replay_path:
         cases = [json.load(open(c.replay_path))["event"]["meta"]["case"]]
     evs = c.run_cases(cases, execute)
@@ -44,7 +49,7 @@ def run():
               "harness-originated: seeded random histories of 0..8 domain operations with admissible arguments on random series (array / "
               "list / int containers) + continuation. P08 clauses are judged on the recorded series only (reference' = F_op(reference) "
               "with the standalone function applied to the previously recorded reference). non-trivial = >= 2 operations; distinct by case")
-    c.coverage_extra = {"simulated_long_histories_from_tlc": len(sims), "lattice_histories_from_tlc": lattice, "emitted_states": len(r.json_lines), "random_histories": len(cases) - lattice - len(sims),
+    c.coverage_extra = {"simulated_long_histories_from_tlc": len(sims), "lattice_histories_from_tlc": lattice, "emitted_states": len(r.json_lines), "random_histories_and_programs": len(cases) - lattice - len(sims),
                         "steps_observed": sum(len(e["steps"]) for e in evs)}
     c.assumptions = ["TLC 1.8, CommunityModules Json/IOUtils", "state projected through get(), get_reference(), get_original() after every call",
                      "once a recorded state drifts from the specification's state the rest of that history is not judged"]
